@@ -157,6 +157,9 @@ class Sim:
         impl.socket = core.make_socket_shim(self.net)
         asyncio.set_event_loop(self.loop)
         self.loop.sim_enter()
+        # one scenario in eight runs with the loop in debug mode (PYTHONASYNCIODEBUG=1 / loop.set_debug(True)): source tracebacks on handles and
+        # tasks, thread checks in call_soon, the extra logging - production code must not behave differently there
+        self.loop.set_debug(bool(rotation.decide("loop_debug", (False, False, False, False, False, False, False, True))))
         self._entered = True
         return self
 
